@@ -34,6 +34,7 @@ func runC18(c *Ctx) {
 	ruleMemCursorMovesWithResult(c, "R18.8")
 	ruleBoltMemoryCopied(c, "R18.9", 12) // what a back-end hands out is the stored value, not a window on memory bolt reuses
 	ruleCopiesSizedBySource(c, "R18.10")
+	ruleRingNotAliased(c, "R18.11")
 }
 
 // R18.6: a successful Put has written the beacon it was given. In the bolt back-ends the transaction closure returns nil
